@@ -190,8 +190,18 @@ def replicateByte(v, n, byte):
 
 
 # ------------------------------------------------------------------ CIP-123
+def _shift_amount_defined(variant, k):
+    """CIP-123 defines shift/rotate for every integer.  The newest ledger variant (E) bounds
+    the amount to a machine integer; I cannot confirm from the specification text available
+    offline whether an out-of-range amount fails or is still accepted there, so the oracle
+    does not commit for (variant E, amount outside [-2^63, 2^63))."""
+    if variant == "E" and not (-2 ** 63 <= k < 2 ** 63):
+        raise Undefined()
+
+
 @builtin("shiftByteString", BS, INT)
 def shiftByteString(v, bs, k):
+    _shift_amount_defined(v, k[1])
     bits = _bits(bs[1])
     n = len(bits)
     out = [0] * n
@@ -204,6 +214,7 @@ def shiftByteString(v, bs, k):
 
 @builtin("rotateByteString", BS, INT)
 def rotateByteString(v, bs, k):
+    _shift_amount_defined(v, k[1])
     bits = _bits(bs[1])
     n = len(bits)
     if n == 0:
